@@ -1,6 +1,6 @@
 (* C07 - Clones are faithful, self-contained and independent of the original. Property theorems only. *)
 From Coq Require Import List ZArith String.
-From SV Require Import Base.Base IR.State IR.NS IR.Ops Xform.Clone Proofs.CloneSmall Proofs.C01_full Proofs.Inv1a Proofs.Inv2a Proofs.CloneFrame Proofs.CloneStart Proofs.NsInv Proofs.InvW Proofs.UniqInv Proofs.CloneFaith Proofs.CloneFull Proofs.CloneNetInv Proofs.CloneDefStruct Proofs.CloneLibInv Proofs.CloneAnyInv Proofs.CloneData Proofs.CloneDataNet.
+From SV Require Import Base.Base IR.State IR.NS IR.Ops Xform.Clone Proofs.CloneSmall Proofs.C01_full Proofs.Inv1a Proofs.Inv2a Proofs.CloneFrame Proofs.CloneStart Proofs.NsInv Proofs.InvW Proofs.UniqInv Proofs.CloneFaith Proofs.CloneFull Proofs.CloneNetInv Proofs.CloneDefStruct Proofs.CloneLibInv Proofs.CloneAnyInv Proofs.CloneData Proofs.CloneDataNet Proofs.Locality Proofs.LocalityStep Proofs.LocalityHist.
 Import ListNotations.
 
 (* cloning a wire: one fresh element, no pins listed, nothing else changes *)
@@ -400,3 +400,56 @@ Example C07_then_any_history_sample :
   | None => False
   end.
 Proof. vm_compute. repeat split. Qed.
+
+
+(* ---- INDEPENDENCE: "later edits ... of either netlist never show in the other" ----
+   Regions (Proofs/Locality.v): a region is a set P of identifiers; [RClosed P s] - every link stored in
+   an object of P (containers and parents, pin -> wire, wire -> pins, an outer pin counting through its
+   instance, outer-pin table -> wires, reference set -> instances, netlist -> top instance) leads into P
+   and identifiers not yet allocated belong to P (objects created by calls on P join P). The pointer
+   instance -> definition is the documented outward link and is not required to stay inside.
+   LOCALITY: for every public editing call whose argument objects lie in a closed region P - accepted or
+   refused - every field of every object outside P (kind, the seven containers in order, parents, wire
+   pins, pin wire, reference, outer-pin table, top, is-top, bundle attributes, direction, data
+   dictionary, namespace table; [out_eq]; reference sets are the documented exception) is unchanged, and
+   P is still closed afterwards. *)
+Theorem C07_locality : forall P s o,
+  RClosed P s -> op_in P o -> out_eq P s (fst (step s o)) /\ RClosed P (fst (step s o)).
+Proof. exact step_local. Qed.
+Print Assumptions C07_locality.
+
+(* ... and over every history of such calls, by induction with the closedness carried along *)
+Theorem C07_independent_of_closed_region : forall P s ops,
+  RClosed P s -> Forall (op_in P) ops -> out_eq P s (run ops s) /\ RClosed P (run ops s).
+Proof. exact history_independent. Qed.
+Print Assumptions C07_independent_of_closed_region.
+
+(* after a clone of any kind of root the new objects are closed under containment and contain every
+   identifier allocated later - the containment part of "the copy's region is closed" *)
+Theorem C07_copy_region_containment : forall s s', CloneOK s s' ->
+  (forall x, next s' <= x -> copy_region (next s) x) /\
+  (forall r x c, copy_region (next s) x -> In c (kids s' r x) -> copy_region (next s) c).
+Proof. exact copy_region_kids. Qed.
+Print Assumptions C07_copy_region_containment.
+
+(* The clause at full strength. Not proved as a whole: what is missing is the closure theorem for the
+   non-containment links of the copy (RClosed (copy_region (next s)) sF and RClosed of the complement
+   region fun x => x < next s \/ next sF <= x after a completed Netlist.clone): it follows from
+   Inv sF (C07_netlist_clone_keeps_invariant: every link has a back pointer), osame (C07_frame_and_closure:
+   old objects unchanged) and Fresh/FreshT/RefK of s (nothing in s points at an unallocated identifier),
+   plus a statement about the copy's top instance that NetStruct does not export yet; and the exactness of
+   the reference sets of the other side (drefs) under the extra hypothesis that references stay inside
+   the region, which needs one more pass over op_set_reference. With those two, C07_independent_full is
+   C07_independent_of_closed_region instantiated at the two regions. *)
+Definition C07_independent_full : Prop :=
+  forall ops0 n h,
+  let s := run ops0 init in
+  let sF := fst (fst (clone_netlist s n)) in
+  kind_of s n = Some KNetlist -> Closed s n -> snd (fst (clone_netlist s n)) = None ->
+  (* edits of the copy never show in the original *)
+  (Forall (op_in (copy_region (next s))) h ->
+     out_eq (copy_region (next s)) sF (run h sF) /\ forall x, x < next s -> drefs (run h sF) x = drefs sF x) /\
+  (* edits of the original never show in the copy *)
+  (Forall (op_in (fun x => x < next s \/ next sF <= x)) h ->
+     out_eq (fun x => x < next s \/ next sF <= x) sF (run h sF) /\
+     forall x, next s <= x -> x < next sF -> drefs (run h sF) x = drefs sF x).
